@@ -111,7 +111,7 @@ func runC13(s *scn.Scenario, res *scn.Result) {
 					if r.panicked && strings.HasPrefix(op.Kind, "dump") {
 						zzsim.AddProbe(probeDumperPanicTaken, 1)
 					}
-					if !r.panicked && op.Kind == "print" {
+					if !r.panicked && strings.HasPrefix(op.Kind, "print") {
 						zzsim.AddProbe(probePrinterContinued, 1)
 					}
 				case "short":
